@@ -332,6 +332,11 @@ def rule_R1(text, log, writer_names=('writer', 'w', 'f')):
                     depth -= 1
                 j += 1
             inner = text[i:j - 1]
+            m0 = re.fullmatch(r'\s*([A-Za-z_][A-Za-z0-9_]*)\s*', inner)
+            if m0 and m.group(1) == 'writeln':      # writeln!(w): a bare newline
+                q = text[j] == '?' if j < len(text) else False
+                out.append((m.start(), j + (1 if q else 0), m.group(1), m0.group(1), '', '', q))
+                continue
             mm = re.match(r'\s*([A-Za-z_][A-Za-z0-9_]*)\s*,\s*"((?:[^"\\\\]|\\\\.)*)"\s*(.*)$', inner, re.S)
             if not mm:
                 raise Unsupported('R1: cannot parse %s' % text[m.start():j][:80])
@@ -358,8 +363,12 @@ def rule_R1(text, log, writer_names=('writer', 'w', 'f')):
             else:
                 arg = name
             if spec == '':
-                hk = HOLE_KINDS.get(name, 'str') if name else 'str'
-                if hk == 'str':
+                hk = HOLE_KINDS.get(name, 'str') if name else HOLE_KINDS.get(arg.strip(), 'str')
+                if hk == 'string':        # an owned String expression: borrowed
+                    calls.append('%s.vw_str(&%s)' % (w, arg.strip()))
+                elif hk == 'udec':        # plain `{}` of an unsigned integer: its decimal digits
+                    calls.append('%s.vw_udec(%s as u128)' % (w, arg.strip()))
+                elif hk == 'str':
                     calls.append('%s.vw_str(%s)' % (w, arg))
                 elif hk == 'char':
                     calls.append('%s.vw_char(%s)' % (w, arg))
@@ -409,12 +418,36 @@ def rule_R1f(text, log):
 
 
 def rule_R3f(text, log):
-    """`&mut fmt::Formatter<'_>` -> `&mut VWriter` (the ghost writer)"""
-    n = len(re.findall(r"&mut fmt::Formatter<'_>", text))
+    """`&mut fmt::Formatter<'_>` / `&mut Formatter<'_>` -> `&mut VWriter` (the ghost writer)"""
+    n = len(re.findall(r"&mut (?:fmt::)?Formatter<'_>", text))
     if n:
-        text = text.replace("&mut fmt::Formatter<'_>", '&mut VWriter')
-        log.append({'rule': 'R3f', 'before': "&mut fmt::Formatter<'_>", 'after': '&mut VWriter', 'count': n})
+        text = re.sub(r"&mut (?:fmt::)?Formatter<'_>", '&mut VWriter', text)
+        log.append({'rule': 'R3f', 'before': "&mut [fmt::]Formatter<'_>", 'after': '&mut VWriter', 'count': n})
     return text
+
+
+def rule_R13(text, log):
+    """X.split(C).nth(N) -> str_split_nth(X, C, N): `Split` and the provided method `nth` have no
+    Verus specification; the wrapper is external_body, its body is the same call"""
+    pat = re.compile(r"\b([A-Za-z_][A-Za-z0-9_]*)\.split\(('(?:[^'\\]|\\.)')\)\.nth\(([^()]*)\)")
+
+    def repl(m):
+        new = 'str_split_nth(%s, %s, %s)' % (m.group(1), m.group(2), m.group(3))
+        log.append({'rule': 'R13', 'before': m.group(0), 'after': new})
+        return new
+    return pat.sub(repl, text)
+
+
+def rule_R14(text, log):
+    """X.join(S) -> strs_join(&X, S): `[String]::join` is generic over the external trait `Join`;
+    the wrapper is external_body, its body is the same call"""
+    pat = re.compile(r'\b((?:self\.)?[A-Za-z_][A-Za-z0-9_]*)\.join\(("(?:[^"\\]|\\.)*")\)')
+
+    def repl(m):
+        new = 'strs_join(&%s, %s)' % (m.group(1), m.group(2))
+        log.append({'rule': 'R14', 'before': m.group(0), 'after': new})
+        return new
+    return pat.sub(repl, text)
 
 
 def rule_R8(text, log):
@@ -558,6 +591,7 @@ def rule_R5(text, log):
     text = re.sub(r'#\[allow\([^\]]*\)\]([ \t]*\n?)', drop, text)
     text = re.sub(r'#\[repr\(u8\)\]([ \t]*\n?)', drop, text)
     text = re.sub(r'#\[cfg_attr\(feature = "unbounded", allow\(dead_code\)\)\]([ \t]*\n?)', drop, text)
+    text = re.sub(r'#\[cfg_attr\(kani, [^\n]*\)\]([ \t]*\n?)', drop, text)
     text = re.sub(r'#\[inline(?:\([^\]]*\))?\]([ \t]*\n?)', drop, text)
     n = len(re.findall(r'\bpub(?:\((?:crate|super)\))? ', text))
     if n:
@@ -573,7 +607,7 @@ def rule_R5(text, log):
     return text
 
 
-RULES = {'R5c': (lambda text, log: text), 'R12': rule_R12, 'R11b': rule_R11b, 'R9': rule_R9, 'R10': rule_R10, 'R11': rule_R11, 'R1': rule_R1, 'R1f': rule_R1f, 'R3f': rule_R3f, 'R8': rule_R8, 'R2': rule_R2, 'R2b': rule_R2b, 'R7': rule_R7, 'R3': rule_R3, 'R4': rule_R4, 'R5': rule_R5}
+RULES = {'R13': rule_R13, 'R14': rule_R14, 'R5c': (lambda text, log: text), 'R12': rule_R12, 'R11b': rule_R11b, 'R9': rule_R9, 'R10': rule_R10, 'R11': rule_R11, 'R1': rule_R1, 'R1f': rule_R1f, 'R3f': rule_R3f, 'R8': rule_R8, 'R2': rule_R2, 'R2b': rule_R2b, 'R7': rule_R7, 'R3': rule_R3, 'R4': rule_R4, 'R5': rule_R5}
 
 
 def strip_doc_comments(text):
@@ -820,7 +854,8 @@ def extract_unit(spec_path, repo, out_path, meta_path=None, canary=None):
             if fn == fnpath:
                 ft.inject_closure(k, cspec)
                 used_closure.add((fn, k))
-        if canary in ('*', fnpath) and (fnpath in contracts['contract'] or canary == fnpath):
+        if canary in ('*', fnpath) and (fnpath in contracts['contract'] or canary == fnpath) \
+                and 'external_body' not in contracts['attr'].get(fnpath, ''):   # assumed contract: no body to reach
             # vacuity canary: must FAIL at the start of the body (requires + assumed specs
             # satisfiable) and at the start of every loop body that has a loop spec
             ft.inserts.append((ft.body_open_offset() + 1, '\n    assert(false); // CANARY\n'))
